@@ -406,8 +406,10 @@ impl PrimalSimplex {
                 lp_debug!("SIMPLEX Phase I: Solved for direction, getting basic solution");
             }
             
-            // Get current basic solution
-            let x_basic = phase1_basis.solve_basic(&b_augmented)?;
+            // Get current basic solution (solve_basic returns it indexed by variable; the
+            // ratio test pairs it with `direction`, which is indexed by basis position)
+            let x_full = phase1_basis.solve_basic(&b_augmented)?;
+            let x_basic: Vec<f64> = phase1_basis.basic.iter().map(|&idx| x_full[idx]).collect();
             if phase1_iterations == 0 {
                 lp_debug!("SIMPLEX Phase I: Got basic solution, finding leaving variable");
             }
